@@ -16,7 +16,7 @@ NOT decided: link correctness of reverse / sort / merge.
 """
 from .. import astfacts, listrules
 from ..facts import Prover
-from ..ir import const_int, resolve_addr
+from ..ir import const_int, resolve_addr, unit_step
 from .util import header_functions, floc
 
 DL = 'cstl_dlist'
@@ -123,13 +123,12 @@ def run(m, rep, tier):
     def has(f, c):
         for s in f.all_insts():
             if s.op == 'store' and resolve_addr(f, s.o[1]).fsteps[-1:] == ((DL, 'size'),):
-                v = f.get(s.o[0])
-                if v is not None and v.op == 'add' and const_int(v.o[1]) == c:
+                if unit_step(f, s.o[0])[1] == c:
                     return True
         return False
     if not [f for f in adj if has(f, 1)]:
         d5.violation('dlist:insertion', 'no function increments the element count although elements can be inserted', 'src/dlist.c', {})
-    if not [f for f in adj if has(f, (1 << 64) - 1)]:
+    if not [f for f in adj if has(f, -1)]:
         d5.violation('dlist:removal', 'no function decrements the element count although elements can be removed', 'src/dlist.c', {})
 
 
